@@ -9,7 +9,7 @@ import (
 func TestProp(t *testing.T) {
 	r := evid.New(t, "C05", evid.Config{
 		Level: "exploration",
-		Rule: "generated requests (valid body of the route's protocol, then damaged: wrong-length ids, missing keys, byte flips, truncation, splices, JSON type swaps, hostile constants, random bytes; every Content-Type / Content-Encoding incl. compression that lies; hostile from/until/name/precision/ddsource) against the real writer route table on a loopback HTTP server over insert services that write to a fake accepting everything; non-trivial: the request reached a body decoder (not the router's 404/405, not net/http's own 400, not 'Content-Type not supported', not turned away by the encoding / precision / profile-parameter checks in front of the decoder)",
+		Rule:  "generated requests (valid body of the route's protocol, then damaged: wrong-length ids, missing keys, byte flips, truncation, splices, JSON type swaps, hostile constants, random bytes; every Content-Type / Content-Encoding incl. compression that lies; hostile from/until/name/precision/ddsource) against the real writer route table on a loopback HTTP server over insert services that write to a fake accepting everything; non-trivial: the request reached a body decoder (not the router's 404/405, not net/http's own 400, not 'Content-Type not supported', not turned away by the encoding / precision / profile-parameter checks in front of the decoder)",
 		Assumptions: []string{
 			"a response must arrive within 10 s (normal latency: milliseconds); a miss counts only if a goroutine with a qryn frame is still alive 20 s later and all of this repeats on a fresh server",
 			"requests are complete (Content-Length matches the body); slow or half-sent requests are out of scope",
